@@ -25,6 +25,7 @@ type SX struct {
 	// quantifier binders
 	BindNames []string
 	BindTypes []string
+	Pats      []*SX // explicit triggers of a quantifier
 	Pos       int
 }
 
@@ -246,6 +247,21 @@ func (p *specParser) parseExpr() (*SX, error) {
 				continue
 			}
 			break
+		}
+		// optional explicit triggers:  forall i int {f(i), g(i)} :: body
+		if p.isOp("{") {
+			p.next()
+			for !p.isOp("}") {
+				pt, err := p.parseExpr()
+				if err != nil {
+					return nil, err
+				}
+				q.Pats = append(q.Pats, pt)
+				if p.isOp(",") {
+					p.next()
+				}
+			}
+			p.next()
 		}
 		if err := p.expectOp("::"); err != nil {
 			return nil, err
